@@ -322,6 +322,7 @@ class World:
             w.stdout.append(("<stderr>", ("Traceback", tp.__name__)))
         m.exit = _exit
         m.excepthook = _excepthook
+        m.__excepthook__ = _excepthook           # the interpreter's own hook, as sys.__excepthook__
         m.exc_info = sys.exc_info
         return m
 
